@@ -1,4 +1,5 @@
 // C01: write-then-read round trip is lossless for every format and writer option.
+#include "tmpdir.hpp"
 #include "gen.hpp"
 #include "pbfcheck.hpp"
 
@@ -140,7 +141,7 @@ struct HeaderModel {
 };
 
 static std::string tmp_path(const Opts& o) {
-    static const std::string base = "/dev/shm/verif-c01-" + std::to_string(getpid());
+    static const std::string base = tmpdir::prefix() + "c01-" + std::to_string(getpid());
     (void)o;
     return base;
 }
